@@ -697,6 +697,35 @@ func checkDecoderPanics(c *km.Ctx, s *km.Sem) {
 								guarded, how = true, "handler registered only under the slash-terminated pattern of that length"
 							}
 						}
+						if !guarded {
+							// a helper handed the request path by handlers registered under such a pattern
+							if pp, isP := km.Unwrap(x.X).(*ssa.Parameter); isP && len(c.G.Callers[fn]) > 0 && len(c.G.AddrTaken[fn]) == 0 {
+								all := true
+								for _, cs := range c.G.Callers[fn] {
+									ci, isCI := cs.Instr.(ssa.CallInstruction)
+									if !isCI {
+										all = false
+										break
+									}
+									args := km.CallArgs(ci.Common())
+									ai := -1
+									for i, q := range fn.Params {
+										if q == pp {
+											ai = i
+										}
+									}
+									pat := patternOf[cs.Caller]
+									_, path, okP := km.FieldPath(km.Unwrap(args[ai]))
+									if ai < 0 || !okP || path != "URL.Path" || pat == "" || int(lo) != len(pat) || !strings.HasSuffix(pat, "/") {
+										all = false
+										break
+									}
+								}
+								if all {
+									guarded, how = true, "the path of handlers registered only under the slash-terminated pattern of that length"
+								}
+							}
+						}
 						if !guarded && st.All(func(kk km.Conj) bool { return lenAtLeast(kk, x.X, lo) }) {
 							guarded, how = true, "len guard"
 						}
